@@ -25,7 +25,7 @@ RULE = (
 )
 BUDGET = {
     "quick": {"examples": 400, "shards": 4, "enum_shards": 4},
-    "thorough": {"examples": 10000, "shards": 16, "enum_shards": 16},
+    "thorough": {"fuzz_runs": 3000, "examples": 10000, "shards": 16, "enum_shards": 16},
 }
 EXHAUSTIVE = {
     "quick": "all add_path shapes over {node,link,foreign}^k, k<=5, x origin/destination presence x 2 start states",
@@ -34,9 +34,9 @@ EXHAUSTIVE = {
 EXPECTED_LABELS = ("malformed", "wellformed-path", "replace-link", "replace-origin", "replace-destination", "new-node-via-origin", "new-node-via-destination")
 ASSUMPTIONS = ["atomicity of a rejected path is not asserted: after a rejected path the model is re-synchronised from the graph",
                "empty paths are not generated (the property does not speak about them)"]
-UNI = {"nodes": ["n0", "n1", "n2", "n3", "n4"], "links": ["l0", "l1", "l2", "l3"],
+UNI = {"nodes": ["n0", "n1", "n0", "n3", "n1"], "links": ["l0", "l1", "l0", "l3"],  # distinct objects, partly equal names
        "origins": [["ideal", "o0"], ["ramp", "o1"], ["main", "o2"]], "dests": [["free", "d0"], ["cong", "d1"], ["free", "d2"]]}
-FOREIGN = ["$none", "$str", "$int", "$float", "$net", "$obj"]
+FOREIGN = ["$none", "o1", "$str", "d1", "$int", "o0", "$float", "d0", "$net", "$obj"]  # incl. origin/destination objects
 
 
 def enumerate_cases(tier, seed, shard, nshards):
